@@ -73,6 +73,25 @@ Proof. intro h. rewrite run_src_eq. apply run_PI. Qed.
 Lemma src_all_gone_every_gauge_zero : forall h, (forall q, copen (conns (run_src h) q) = false) ->
   forall i c, gval (i, c) (g_subs (run_src h)) = 0.
 Proof. intro h. rewrite run_src_eq. apply all_gone_every_gauge_zero. Qed.
+(* the whole stall episode, for the loop that runs the translated pause_writing / deadline coroutine / resume_writing,
+   with the delay READ FROM THE SOURCE (Connection_deadline_seconds, the argument of asyncio.sleep) *)
+Lemma src_stall_then_exactly_grace : forall h q es,
+  let step' := step_src bname store async_store in
+  let s := run_src h in
+  made (conns s q) = true -> lost (conns s q) = false -> wpaused (conns s q) = false ->
+  forallb (leaves_deadline q) es = true ->
+  let s1 := fold_left step' es (step' s (PauseW q)) in
+  ((nticks es < Connection_deadline_seconds)%nat -> timer (conns s1 q) = Some (Connection_deadline_seconds - nticks es)%nat) /\
+  (nticks es = (Connection_deadline_seconds - 1)%nat ->
+     closing (conns (step' s1 Tick) q) = true /\ timer (conns (step' s1 Tick) q) = None).
+Proof.
+  intros h q es step' s. unfold s, step'. rewrite run_src_eq, deadline_seconds_is_grace.
+  replace (step_src bname store async_store) with (step bname store async_store)
+    by (apply FunctionalExtensionality.functional_extensionality; intro a;
+        apply FunctionalExtensionality.functional_extensionality; intro b; symmetry; apply step_src_eq).
+  apply (stall_then_exactly_grace bname store async_store).
+Qed.
+
 Lemma src_IdsOK : forall h, IdsOK (run_src h).
 Proof. intro h. rewrite run_src_eq. apply run_IdsOK. Qed.
 End Src.
